@@ -25,7 +25,8 @@ Opts(m) ==
   ELSE IF m = "SiLU" THEN [mult |-> {"1.0", "0.25", "3.0"}, constraint |-> BinaryC, inplace |-> {"False", "True"}]
   ELSE IF m = "Softmax" THEN [dim |-> {"-1", "0", "1"}, mult |-> {"1.0", "0.25"}, constraint |-> BinaryC]
   ELSE IF m = "Dropout" THEN [p |-> {"0.0", "0.25", "0.5"}, inplace |-> {"False", "True"}]
-  ELSE IF m \in {"Linear", "LinearReadout"} THEN [in_features |-> {"3", "8"}, out_features |-> {"1", "5"}, bias |-> {"False", "True"}, constraint |-> BinaryC]
+  ELSE IF m \in {"Linear", "LinearReadout"} THEN [in_features |-> {"3", "8"}, out_features |-> {"1", "5"}, bias |-> {"False", "True"}, constraint |-> BinaryC,
+                                                        weight_mup_type |-> {"'weight'", "'bias'", "'norm'", "'output'"}]   \* the learning-rate tag of the weight: NOT the scaling rule
   ELSE IF m = "Conv1d" THEN [in_channels |-> {"4"}, out_channels |-> {"2", "6"}, kernel_size |-> {"1", "3"}, stride |-> {"1", "2"}, padding |-> {"0", "2"},
                              dilation |-> {"1", "2"}, groups |-> {"1", "2"}, bias |-> {"False", "True"},
                              padding_mode |-> {"'zeros'", "'reflect'", "'replicate'", "'circular'"}, constraint |-> {"None", "'gmean'", "'to_output_scale'", "'to_grad_input_scale'"}]
@@ -33,13 +34,13 @@ Opts(m) ==
   ELSE IF m = "RMSNorm" THEN [normalized_shape |-> {"8", "(4, 8)"}, eps |-> {"1e-05", "0.001"}, elementwise_affine |-> {"False", "True"}]
   ELSE IF m = "Embedding" THEN [num_embeddings |-> {"7"}, embedding_dim |-> {"4"}, padding_idx |-> {"None", "0", "-1"}, max_norm |-> {"None", "1.0"},
                                 scale_grad_by_freq |-> {"False", "True"}, sparse |-> {"False", "True"}]
-  ELSE [mult |-> {"1.0", "0.5"}, ignore_index |-> {"-100", "1"}, reduction |-> {"'mean'", "'sum'"}, label_smoothing |-> {"0.0", "0.1"}, size_average |-> {"None", "True"}]
+  ELSE [mult |-> {"1.0", "0.5"}, ignore_index |-> {"-100", "1"}, reduction |-> {"'mean'", "'sum'"}, label_smoothing |-> {"0.0", "0.1"}, size_average |-> {"None", "True", "False"}]
 
 \* (option, value) pairs that must be rejected at construction
 Rejected(m) ==
   IF m \in {"SiLU", "Dropout"} THEN {<<"inplace", "True">>}
   ELSE IF m = "Embedding" THEN {<<"scale_grad_by_freq", "True">>, <<"sparse", "True">>}
-  ELSE IF m = "CrossEntropyLoss" THEN {<<"label_smoothing", "0.1">>, <<"size_average", "True">>}
+  ELSE IF m = "CrossEntropyLoss" THEN {<<"label_smoothing", "0.1">>, <<"size_average", "True">>, <<"size_average", "False">>}   \* False (default None) is a request too
   ELSE {}
 Accepts(m, cfg) == \A p \in Rejected(m) : cfg[p[1]] # p[2]
 
@@ -64,16 +65,18 @@ ArgMap(m) ==
          A("label_smoothing", "opt", "label_smoothing"), A("mult", "opt", "mult")>>
 
 \* parameters present for a configuration: <<name, tag, init class>>
+TagOf(v) == IF v = "'weight'" THEN "weight" ELSE IF v = "'bias'" THEN "bias" ELSE IF v = "'norm'" THEN "norm" ELSE "output"
 Params(m, cfg) ==
-  IF m \in {"Linear", "Conv1d"} THEN <<<<"weight", "weight", "normal">>>> \o (IF cfg.bias = "True" THEN <<<<"bias", "bias", "zeros">>>> ELSE <<>>)
-  ELSE IF m = "LinearReadout" THEN <<<<"weight", "output", "normal">>>> \o (IF cfg.bias = "True" THEN <<<<"bias", "bias", "zeros">>>> ELSE <<>>)
+  IF m = "Conv1d" THEN <<<<"weight", "weight", "normal">>>> \o (IF cfg.bias = "True" THEN <<<<"bias", "bias", "zeros">>>> ELSE <<>>)
+  \* the requested tag decides the weight's learning-rate rule only; the function computed (Func) is the class's, whatever the tag
+  ELSE IF m \in {"Linear", "LinearReadout"} THEN <<<<"weight", TagOf(cfg.weight_mup_type), "normal">>>> \o (IF cfg.bias = "True" THEN <<<<"bias", "bias", "zeros">>>> ELSE <<>>)
   ELSE IF m = "LayerNorm" THEN IF cfg.elementwise_affine = "True" THEN <<<<"weight", "norm", "ones">>>> \o (IF cfg.bias = "True" THEN <<<<"bias", "bias", "zeros">>>> ELSE <<>>) ELSE <<>>
   ELSE IF m = "RMSNorm" THEN IF cfg.elementwise_affine = "True" THEN <<<<"weight", "norm", "ones">>>> ELSE <<>>
   ELSE IF m = "Embedding" THEN <<<<"weight", "weight", "normal">>>>
   ELSE <<>>
 
 \* ---- well-formedness of the table: every option is forwarded, or consumed by construction (sizes / presence of a parameter), or rejected
-ShapeOptions == {"in_features", "out_features", "in_channels", "out_channels", "kernel_size", "num_embeddings", "embedding_dim", "bias", "elementwise_affine", "padding_mode", "size_average"}
+ShapeOptions == {"in_features", "out_features", "in_channels", "out_channels", "kernel_size", "num_embeddings", "embedding_dim", "bias", "elementwise_affine", "padding_mode", "size_average", "weight_mup_type"}
 Forwarded(m) == {ArgMap(m)[k][3] : k \in {j \in 1 .. Len(ArgMap(m)) : ArgMap(m)[j][2] \in {"opt", "padopt"}}}
 HonouredOrRejected(m) == \A o \in DOMAIN Opts(m) : o \in Forwarded(m) \/ o \in ShapeOptions
 TagsKnown(m, cfg) == \A k \in 1 .. Len(Params(m, cfg)) : Params(m, cfg)[k][2] \in Tags
